@@ -41,25 +41,118 @@ pub fn text(host: &Host) -> Vec<String> {
 }
 
 /// Hash of the behaviourally relevant part of the trace (calls, deliveries,
-/// copies, task returns, guest-visible results).
+/// copies, task returns, guest-visible results); no formatting involved.
 pub fn hash(host: &Host) -> u64 {
-    let mut h: u64 = 0xcbf29ce484222325;
-    let mut feed = |s: &str| {
-        for b in s.as_bytes() {
-            h ^= *b as u64;
-            h = h.wrapping_mul(0x100000001b3);
+    struct H(u64);
+    impl H {
+        fn b(&mut self, x: u8) {
+            self.0 ^= x as u64;
+            self.0 = self.0.wrapping_mul(0x100000001b3);
         }
-        h ^= 0xff;
-        h = h.wrapping_mul(0x100000001b3);
-    };
+        fn n(&mut self, x: u64) {
+            for i in 0..8 {
+                self.b((x >> (8 * i)) as u8);
+            }
+        }
+        fn s(&mut self, x: &str) {
+            for c in x.as_bytes() {
+                self.b(*c);
+            }
+            self.b(0xff);
+        }
+        fn v(&mut self, x: &[u32]) {
+            self.n(x.len() as u64);
+            for i in x {
+                self.n(*i as u64);
+            }
+        }
+    }
+    let mut h = H(0xcbf29ce484222325);
     for ev in &host.log {
         match ev {
             Ev::Snapshot { .. } | Ev::Ledger(_) | Ev::Note(..) | Ev::InSet { .. } => {}
             Ev::Call { name, .. } if *name == "context.get" || *name == "context.set" || *name == "wasip3_task_set" => {}
-            other => feed(&fmt_ev(other)),
+            Ev::Call { task, name, a, b, ret } => {
+                h.b(1);
+                h.n(*task as u64);
+                h.s(name);
+                h.n(*a);
+                h.n(*b);
+                h.n(*ret);
+            }
+            Ev::Deliver { task, via, code, handle, payload } => {
+                h.b(2);
+                h.n(*task as u64);
+                h.s(via);
+                h.n(*code as u64);
+                h.n(*handle as u64);
+                h.n(*payload as u64);
+            }
+            Ev::Copy { shared, to_host, k, ids } => {
+                h.b(3);
+                h.n(*shared as u64);
+                h.b(*to_host as u8);
+                h.n(*k as u64);
+                h.v(ids);
+            }
+            Ev::Peer { shared, what, arg } => {
+                h.b(4);
+                h.n(*shared as u64);
+                h.s(what);
+                h.n(*arg as u64);
+            }
+            Ev::TaskStart { task } => {
+                h.b(5);
+                h.n(*task as u64);
+            }
+            Ev::TaskRet { task, code } => {
+                h.b(6);
+                h.n(*task as u64);
+                h.n(*code as u64);
+            }
+            Ev::Guest { task, gv } => {
+                h.b(7);
+                h.n(*task as u64);
+                match gv {
+                    Gv::OpNew { slot, handle, kind, ids } => {
+                        h.b(1);
+                        h.n(*slot as u64);
+                        h.n(*handle as u64);
+                        h.s(kind);
+                        h.v(ids);
+                    }
+                    Gv::OpStarted { slot, rec } => {
+                        h.b(2);
+                        h.n(*slot as u64);
+                        h.n(rec.map_or(u64::MAX, |r| r as u64));
+                    }
+                    Gv::OpResult { slot, how, what, back } => {
+                        h.b(3);
+                        h.n(*slot as u64);
+                        h.s(how);
+                        h.s(what);
+                        h.v(back);
+                    }
+                    Gv::OpDropped { slot } => {
+                        h.b(4);
+                        h.n(*slot as u64);
+                    }
+                    Gv::Fact { key, a, b, ids } => {
+                        h.b(5);
+                        h.s(key);
+                        h.n(*a);
+                        h.n(*b);
+                        h.v(ids);
+                    }
+                }
+            }
+            Ev::Trap { kind, .. } => {
+                h.b(8);
+                h.s(kind.name());
+            }
         }
     }
-    h
+    h.0
 }
 
 /// Sequence of callback codes per task, e.g. `t1:W2,Y,E`.
